@@ -1,5 +1,7 @@
 import St4sd.Model.Ctrl
+import St4sd.Model.CtrlSplit
 import St4sd.Lemmas.C01
+import St4sd.Lemmas.C01Split
 /-!
 # C01 — a component is launched only when all its producers are final, and never on a failed one
 
@@ -167,5 +169,113 @@ example : (run wfEx3 opsEx3b).log.map (·.1) = [0, 1, 2] ∧ ((run wfEx3 opsEx3b
     ((run wfEx3 opsEx3b).comp 0).ctrl = some .failed ∧
     ((run wfEx3 opsEx3b).comp 1).ctrl = some .finished := by
   decide +kernel
+
+/-! ## `finishedCheck` split at its lock boundaries (`St4sd/Model/CtrlSplit.lean`)
+
+The theorems above treat the handler of a finished-notification as one step.  In the real controller it
+runs on a pool thread and only its middle part holds `comp_lock`; `srun wf sops` is the transition
+system in which the three parts `finPre c` (before the lock), `finCrit c` (under the lock), `finPost c`
+(after it: `comp_done.add`) are separate operations that interleave arbitrarily with scheduler passes,
+task exits, other (split or unsplit) deliveries, kills and stage transitions.  All launch theorems hold
+for every such history. -/
+
+/-- The part of the handler before `comp_lock` changes nothing that anybody reads: component states,
+`comp_done`, `stop_executing`, the current stage and the launch log are untouched (the notification
+just moves from the queue to `inflight`).  So an interleaving at that point cannot be observed. -/
+theorem split_prelock_changes_nothing (wf : Wf) (s : SSt) (c : Nat) :
+    (sstep wf s (.finPre c)).base.comp = s.base.comp ∧ (sstep wf s (.finPre c)).base.done = s.base.done ∧
+    (sstep wf s (.finPre c)).base.stop = s.base.stop ∧ (sstep wf s (.finPre c)).base.cur = s.base.cur ∧
+    (sstep wf s (.finPre c)).base.log = s.base.log := by
+  simp only [sstep]
+  split <;> exact ⟨rfl, rfl, rfl, rfl, rfl⟩
+
+/-- The three parts executed back to back are the atomic delivery `Op.fin c`. -/
+theorem split_parts_in_sequence_eq_fin (wf : Wf) (s : St) (c : Nat) :
+    (sstep wf (sstep wf (sstep wf { base := s } (.finPre c)) (.finCrit c)) (.finPost c)) =
+      { base := step wf s (.fin c) } := by
+  show _ = ({ base := deliverFin wf s c } : SSt)
+  rw [deliverFin_eq]
+  by_cases hm : Notif.fin c ∈ s.pending
+  · simp [sstep, hm]
+  · simp [sstep, hm]
+
+/-- Histories without split deliveries are histories of the split system: the split system extends
+`run`. -/
+theorem split_extends_run (wf : Wf) (ops : List Op) :
+    (srun wf (ops.map SOp.base)).base = run wf ops ∧ (srun wf (ops.map SOp.base)).inflight = [] := by
+  unfold srun run
+  rw [srun_base]
+  exact ⟨rfl, rfl⟩
+
+theorem split_launch_after_producers_final (wf : Wf) (sops : List SOp) :
+    ∀ e ∈ (srun wf sops).base.log, ∀ pv ∈ e.2,
+      pv.2.state.isSome = true ∨
+        ((wf.cdef e.1).isRepeat = true ∧ (wf.cdef pv.1).stage = (wf.cdef e.1).stage ∧
+          pv.2.staged = true) :=
+  fun e he => ((srun_inv wf sops).inv.log e he).final
+
+theorem split_never_launch_on_failed (wf : Wf) (sops : List SOp) :
+    ∀ e ∈ (srun wf sops).base.log, ∀ pv ∈ e.2, pv.2.state ≠ some .failed :=
+  fun e he => ((srun_inv wf sops).inv.log e he).nofail
+
+theorem split_never_launch_on_shutdown_nonaggregating (wf : Wf) (sops : List SOp) :
+    ∀ e ∈ (srun wf sops).base.log, (wf.cdef e.1).isAgg = false →
+      ∀ pv ∈ e.2, pv.2.state ≠ some .shutdown :=
+  fun e he => ((srun_inv wf sops).inv.log e he).nonagg
+
+theorem split_aggregating_rule (wf : Wf) (sops : List SOp) :
+    ∀ e ∈ (srun wf sops).base.log, (wf.cdef e.1).isAgg = true →
+      (∀ pv ∈ e.2, (wf.cdef pv.1).isRepl = false → pv.2.state ≠ some .shutdown) ∧
+      ((∃ pv ∈ e.2, (wf.cdef pv.1).isRepl = true) →
+        ∃ pv ∈ e.2, (wf.cdef pv.1).isRepl = true ∧ pv.2.state ≠ some .shutdown) :=
+  fun e he ha => ⟨((srun_inv wf sops).inv.log e he).agg1 ha, ((srun_inv wf sops).inv.log e he).agg2 ha⟩
+
+theorem split_log_lists_all_producers (wf : Wf) (sops : List SOp) :
+    ∀ e ∈ (srun wf sops).base.log, e.2.map Prod.fst = (wf.cdef e.1).preds :=
+  fun e he => ((srun_inv wf sops).inv.log e he).preds
+
+theorem split_launched_has_log_entry (wf : Wf) (sops : List SOp) (c : Nat) :
+    ((srun wf sops).base.comp c).ran = true → ∃ e ∈ (srun wf sops).base.log, e.1 = c :=
+  (srun_inv wf sops).inv.ran c
+
+/-- Members of `comp_done` are final, and so is every component whose notification is being handled. -/
+theorem split_done_or_inflight_implies_final (wf : Wf) (sops : List SOp) (c : Nat) :
+    ((srun wf sops).base.done c = true ∨ ∃ ph, (c, ph) ∈ (srun wf sops).inflight) →
+      ((srun wf sops).base.comp c).ctrl.isSome = true := by
+  rintro (h | ⟨ph, h⟩)
+  · exact (srun_inv wf sops).inv.core.done c h
+  · exact (srun_inv wf sops).fly (c, ph) h
+
+/-- Final states stay what they are in every continuation of a split history. -/
+theorem split_final_is_permanent (wf : Wf) (sops sops' : List SOp) (c : Nat) (f : Fin3) :
+    ((srun wf sops).base.comp c).ctrl = some f → ((srun wf (sops ++ sops')).base.comp c).ctrl = some f := by
+  intro h
+  unfold srun
+  rw [List.foldl_append]
+  exact (sfoldl_inv wf sops' _ (srun_inv wf sops)).2 c f h
+
+/-! ### non-vacuity of the split system
+
+`wfEx3`: replica 0 fails.  Its notification is handled in three parts; a scheduler pass runs between
+the critical region (stage stopped, component 2 asked to shut down) and `comp_done.add`, another one
+after it, and the notification of replica 1 is handled (atomically) while that of replica 0 waits for
+the lock. -/
+
+def sopsEx3 : List SOp :=
+  [.base .sched, .base .sched, .base (.exit 0), .base (.pm 0), .base (.exit 1), .base (.pm 1),
+   .finPre 0, .base (.fin 1), .base .sched, .finCrit 0, .base .sched, .finPost 0, .base .sched,
+   .base (.exit 2), .base (.fin 2), .base (.fin 3)]
+
+example : (srun wfEx3 sopsEx3).base.log.map (·.1) = [0, 1, 2] ∧
+    ((srun wfEx3 sopsEx3).base.comp 3).ran = false ∧
+    ((srun wfEx3 sopsEx3).base.comp 3).ctrl = some .shutdown ∧ (srun wfEx3 sopsEx3).inflight = [] ∧
+    (srun wfEx3 sopsEx3).base.done 0 = true := by decide +kernel
+
+/-- in the middle of that history the notification of component 0 is in flight, waiting for `finPost`:
+the stage has been stopped, component 0 is not yet in `comp_done` -/
+example : (srun wfEx3 (sopsEx3.take 11)).inflight = [(0, .waitRecord)] ∧
+    (srun wfEx3 (sopsEx3.take 11)).base.done 0 = false ∧
+    ((srun wfEx3 (sopsEx3.take 11)).base.comp 2).finishCalled = true := by decide +kernel
+
 
 end St4sd.C01
